@@ -1017,7 +1017,7 @@ def small_rational(x, scale=1.0):
 
 
 def record_wls(rng):
-    if rng.random() < 0.04:                      # tall integer systems (hundreds of rows; exact denominators stay <= 10^4)
+    if rng.random() < 0.015:                     # tall integer systems (hundreds of rows; exact denominators stay <= 10^4)
         if rng.random() < 0.6:
             N = rng.choice([255, 256, 257, 300, 513])
             A = [[rng.randint(-2, 2)] for _ in range(N)]
@@ -1392,6 +1392,10 @@ def run(ctx):
         'chi2, a sum of squared residuals, is judged relative to itself plus round-off-level multiples of its natural scale '
         'Q = sum w_i (|b_i| + scale_i)^2: 1e-9 chi2 + 256 eps sqrt(chi2 Q) + 1e-22 Q (tol x Q would hide a cancelling '
         'evaluation of chi2 such as b.b - x.(M^T b))',
+        'SIZE classes: HMF (stepped and full solve(), both modes), computechi2 (float and exact integer records) and '
+        'pca_solve are also run with hundreds of spectra / pixels / rows / objects, just below, at and past typical block '
+        'sizes (63..65, 127..129, 255..257, 300, 511..513, 1025) with the other dimensions small; the per-event step laws '
+        'and record laws are the same.  The exact TLC layers (MC_LinSolve) stay at N <= 5 (32-bit rationals)',
         'binding self-tests: accepted recorded calls with one falsified field and accepted HMF traces with one falsified / '
         'dropped event must all be refused by Trace_LinSolve (counts in coverage.parts.selftest_*), else exit 2',
         'every enumerated system is also replayed scaled by powers of two (A*2^3, b*2^20, sqivar*2^16) or with the model '
